@@ -73,4 +73,23 @@ def walk (o : Opts) (es : List Entry) (root : Str) : List Str :=
     | some e => visit o es (es.length + 2) e e.path root
     | none => []
 
+/-- `readFiles` for one root given relative to the working directory `cwd` (a directory of the
+    tree, `[]` = the tree root): `.` lists the working directory without prefix, `..` its parent
+    with the prefix `../`. -/
+def walkCwd (o : Opts) (es : List Entry) (cwd root : Str) : List Str :=
+  if cwd.isEmpty then walk o es root
+  else
+    let kids (real : Str) := es.filter fun c => parentOf c.path == real && c.path != real && !c.path.isEmpty
+    if root == [46] then
+      (kids cwd).flatMap fun c => visit o es (es.length + 2) c c.path (baseOf c.path)
+    else if root == [46, 46] then
+      if pruned o root then []
+      else
+        (if o.dir then [root ++ [47]] else []) ++
+        (kids (parentOf cwd)).flatMap fun c => visit o es (es.length + 2) c c.path (root ++ [47] ++ baseOf c.path)
+    else
+      match es.find? (·.path == cwd ++ [47] ++ root) with
+      | some e => visit o es (es.length + 2) e e.path root
+      | none => []
+
 end Fzf.Walker
